@@ -1164,7 +1164,10 @@ class Sim:
                           "note": "result of a mixed-registry operation is bound to a third registry"},
                          [op["k"], op.get("f", ""), "third"])
         elif (nr != nx and isinstance(nx, int) and op["k"] in ("binop", "unitop")
-              and hasattr(x, "is_Unit") == hasattr(y, "is_Unit")):
+              and hasattr(x, "is_Unit") == hasattr(y, "is_Unit")
+              and res.units is not getattr(y, "units", None)):
+            # (res.units is y.units: the temperature rule of the pinned tree - K or delta_degC (+) degC gives the
+            # right operand's unit OBJECT, e.g. the delta_degC handed out by an earlier degC - degC plus a degC)
             # array (op) array and Unit (op) Unit: the right operand's registry is allowed only as the
             # documented fallback - the left registry cannot resolve a symbol of one of the operands
             # (array.py _multiply_units / _divide_units).  Not applied to x.to(unit_of_B) (the caller asked
